@@ -32,7 +32,7 @@ ANCHORS = ["decaylanguage.modeling.ampgen2goofit:ampgen2goofit", "decaylanguage.
            "decaylanguage.modeling.goofit:GooFitChain.make_amplitude", "decaylanguage.modeling.goofit:GooFitPyChain.make_amplitude"]
 WORKERS = {"quick": 8, "thorough": 16}
 WATCHDOG = {"quick": 900, "thorough": 3300}
-REQUIRED = {"converted-with-colours-on": 3, "conjugate-event-type": 3, "conversion-after-a-failed-conversion-by-one-converter": 5, "free-coupling": 5, "fixed-coupling": 5, "free-parameter": 5, "fixed-parameter": 5, **{f"lineshape:{k}": 3 for k in A.LS_KINDS}, "spline-array": 3,
+REQUIRED = {"step-wise-conversion-with-the-other-converter-reading-another-file-in-between": 4, "converted-with-colours-on": 3, "conjugate-event-type": 3, "conversion-after-a-failed-conversion-by-one-converter": 5, "free-coupling": 5, "fixed-coupling": 5, "free-parameter": 5, "fixed-parameter": 5, **{f"lineshape:{k}": 3 for k in A.LS_KINDS}, "spline-array": 3,
             "kmatrix-arrays": 3, "entry:returned-string": 10, "entry:printed": 10, "entry:command-line": 2, "shipped-model": 1, "python-executed": 10,
             "cross-language-compared": 10, "file-converted-again-after-another": 5, "converters-with-different-histories": 2}
 ASSUMPTIONS = ["GooFit itself is not installed: the Python output runs against a recording stand-in whose vocabulary (Variable, DecayInfo4, Lineshapes.*, FF, SpinFactor, "
@@ -140,6 +140,40 @@ def again_after_another_file(ctx):
                     ctx.violate("cpp-output:symbol-not-declared-before-use", f"{und[:5]} (file converted again after another one)", wit)
             except G.Unreadable as e:
                 ctx.violate("emitted-code:unreadable:cpp", str(e), wit)
+
+
+def stepwise_with_the_other_converter_in_between(ctx, path, other_path, wit0):
+    """The notebooks' step-wise use of a converter class (read_ampgen, then make_intro / make_pars / line.to_goofit) with two models alive: after this
+    converter read `path`, the *other* converter reads another file; what this converter then emits still describes `path` -- its own parameters,
+    arrays and spline binnings."""
+    from decaylanguage.modeling.goofit import GooFitChain, GooFitPyChain  # noqa: PLC0415
+
+    for lang, cls, other in (("cpp", GooFitChain, GooFitPyChain), ("python", GooFitPyChain, GooFitChain)):
+        wit = {**wit0, "language": lang, "entry": "step-wise", "other_converter_read_in_between": True}
+        ctx.hit("step-wise-conversion-with-the-other-converter-reading-another-file-in-between")
+
+        def pieces(lines, states, cls=cls):
+            return {"intro": cls.make_intro(states), "parameters": cls.make_pars(), "amplitudes": [ln.to_goofit(states[1:]) for ln in lines]}
+
+        def both(cls=cls, other=other):
+            lines, states = cls.read_ampgen(path)
+            a = pieces(lines, states)
+            other.read_ampgen(other_path)
+            return a, pieces(lines, states)
+
+        ok, res = ctx.guard(f"conversion-fails:{lang}:step-wise", wit, both)
+        if not ok:
+            continue
+        ctx.mon("C19.step_wise_output_describes_its_own_file")
+        a, b = res
+        for k in a:
+            if a[k] != b[k]:
+                import difflib  # noqa: PLC0415
+
+                x, y = ("\n".join(a[k]), "\n".join(b[k])) if isinstance(a[k], list) else (a[k], b[k])
+                diff = [z for z in difflib.unified_diff(x.splitlines(), y.splitlines(), lineterm="", n=0)][:6]
+                ctx.violate(f"step-wise:{k}-change-when-the-other-converter-reads-another-file:{lang}", " | ".join(diff), wit)
+                break
 
 
 def check_text(ctx, text, wit0, label, shipped=False, cli=False, nontrivial=True):
@@ -257,6 +291,8 @@ def check_text(ctx, text, wit0, label, shipped=False, cli=False, nontrivial=True
                 ctx.violate(mech, msg, wit0)
             if len(ctx.samples) < 2 and not shipped:
                 ctx.sample({"text": text, "amplitudes": [a["name"] for a in models["cpp"]["amps"]], "parameters": len(models["cpp"]["parameters"])})
+        if _prev.get("path") and not shipped and _nconv[0] % 2 == 0:
+            stepwise_with_the_other_converter_in_between(ctx, path, _prev["path"], wit0)
         again_after_another_file(ctx)
         if _prev.get("dir"):
             shutil.rmtree(_prev["dir"], ignore_errors=True)
